@@ -39,6 +39,7 @@ import GM.Props.ConvertE2E
 import GM.Props.Consts.Parser
 import GM.Props.ConvertNP
 import GM.Props.Wf0
+import GM.Props.ConvertX
 
 namespace GM.Props.C01
 open GM
@@ -257,5 +258,19 @@ theorem inline_handover_wellformed : type_of% @GM.Props.Wf0.inline_bearing_wellf
     proved, `InlineLinesWF0 src` (every inline-bearing block has `WF0` lines) is equivalent to ONE fact: every line
     segment of an inline-bearing block of the final store has padding 0. -/
 theorem inline_handover_remaining : type_of% @GM.Props.Wf0.inline_wf0_remaining := @GM.Props.Wf0.inline_wf0_remaining
+
+/-- (re-export of `GM.Props.ConvertX.convertx_never_loops_partial`) `convertx_never_loops` for the member sets {} and {Table}: HTML, or an error that is not fuel exhaustion. -/
+theorem convertx_never_loops_partial : type_of% @GM.Props.ConvertX.convertx_never_loops_partial := @GM.Props.ConvertX.convertx_never_loops_partial
+
+/-- (re-export of `GM.Props.ConvertX.convertx_never_loops_of`) every member set: no fuel exhaustion, provided the inline phase of that member set never exhausts its fuel -/
+theorem convertx_never_loops_of : type_of% @GM.Props.ConvertX.convertx_never_loops_of := @GM.Props.ConvertX.convertx_never_loops_of
+
+/-- (re-export of `GM.Props.ConvertX.block_phase_x_terminates`) the block phase of EVERY member set terminates on every source: the table paragraph transformer is an admissible
+    transformer of the block driver (reads the source, writes the node store: `PTOK`), so
+    GM.Props.Convert.block_phase_with_transformers_terminates applies to [link references, table] -/
+theorem block_phase_x_terminates : type_of% @GM.Props.ConvertX.block_phase_x_terminates := @GM.Props.ConvertX.block_phase_x_terminates
+
+/-- (re-export of `GM.Props.ConvertX.table_transformer_admissible`) see `GM.Props.ConvertX.table_transformer_admissible` -/
+theorem table_transformer_admissible : type_of% @GM.Props.ConvertX.table_transformer_admissible := @GM.Props.ConvertX.table_transformer_admissible
 
 end GM.Props.C01
